@@ -4,6 +4,7 @@ import (
 	"fmt"
 	"io"
 	"os"
+	"runtime"
 	"strings"
 	"testing"
 	"time"
@@ -83,5 +84,35 @@ func TestKnownPopDuringRenderDelay(t *testing.T) {
 	p.Wait()
 	if !strings.Contains(out.String(), "barA FINISHED") {
 		t.Errorf("POP-DELAY: bar A finished during the render delay and was never drawn (output has barB: %v)", strings.Contains(out.String(), "barB"))
+	}
+}
+
+// Recorded finding F-ADD-WAIT: Progress.Add served while another goroutine is inside Progress.Wait. The container
+// counts its bars in a sync.WaitGroup: Wait blocks in bwg.Wait(), newBar does bwg.Add(1) from the container goroutine.
+// When the last running bar finishes, the counter reaches zero and the waiter is released; an Add served before the
+// waiter has returned takes the counter up from zero again, which sync.WaitGroup forbids: the runtime panics with
+// "WaitGroup is reused before previous Wait has returned" (in the caller of Wait) or "WaitGroup misuse: Add called
+// concurrently with Wait" (in the container goroutine). Allowed outcomes are "bar added" or ErrDone. (Pattern by a
+// bug-hunting sub-agent; roughly one iteration in a few hundred hits the window.)
+func TestKnownAddWhileWait(t *testing.T) {
+	if os.Getenv("REPLAY_KNOWN") == "" {
+		t.Skip("set REPLAY_KNOWN=1 to replay the recorded finding")
+	}
+	for i := 0; i < 200000; i++ {
+		p := mpb.New(mpb.WithOutput(io.Discard))
+		a := p.AddBar(1)
+		waitRes := make(chan interface{}, 1)
+		go func() {
+			defer func() { waitRes <- recover() }()
+			p.Wait()
+		}()
+		runtime.Gosched()
+		a.Increment()
+		if b, err := p.Add(1, nil); err == nil {
+			b.Increment()
+		}
+		if r := <-waitRes; r != nil {
+			t.Fatalf("ADD-WAIT: iteration %d: Progress.Wait panicked: %v", i, r)
+		}
 	}
 }
